@@ -138,6 +138,8 @@ impl Mul<Scalar> for Challenge {
 #[derive(Debug)]
 pub struct ChallengeBuilder {
     hasher: Sha3_256,
+    #[cfg(feature = "verif-hooks")]
+    verif_chunks: Vec<Vec<u8>>,
 }
 
 impl Default for ChallengeBuilder {
@@ -151,6 +153,8 @@ impl ChallengeBuilder {
     pub fn new() -> Self {
         Self {
             hasher: Sha3_256::new(),
+            #[cfg(feature = "verif-hooks")]
+            verif_chunks: Vec::new(),
         }
     }
 
@@ -167,6 +171,8 @@ impl ChallengeBuilder {
 
     /// Incorporate arbitrary bytes into the challenge.
     pub fn consume_bytes(&mut self, bytes: impl AsRef<[u8]>) {
+        #[cfg(feature = "verif-hooks")]
+        self.verif_chunks.push(bytes.as_ref().to_vec());
         self.hasher.update(bytes);
     }
 
@@ -180,6 +186,8 @@ impl ChallengeBuilder {
     pub fn finish(self) -> Challenge {
         let mut digested = [0; 32];
         digested.copy_from_slice(self.hasher.finalize().as_ref());
+        #[cfg(feature = "verif-hooks")]
+        verif_hooks::record(self.verif_chunks, digested);
         let scalar = Scalar::from_raw([
             u64::from_le_bytes(<[u8; 8]>::try_from(&digested[0..8]).unwrap()),
             u64::from_le_bytes(<[u8; 8]>::try_from(&digested[8..16]).unwrap()),
@@ -187,5 +195,25 @@ impl ChallengeBuilder {
             u64::from_le_bytes(<[u8; 8]>::try_from(&digested[24..32]).unwrap()),
         ]);
         Challenge(scalar)
+    }
+}
+
+/// Verification instrumentation: a thread-local log of every challenge computed, as the list of
+/// byte chunks that were hashed and the resulting digest. Only present with feature `verif-hooks`.
+#[cfg(feature = "verif-hooks")]
+pub mod verif_hooks {
+    use std::cell::RefCell;
+
+    thread_local! {
+        static LOG: RefCell<Vec<(Vec<Vec<u8>>, [u8; 32])>> = RefCell::new(Vec::new());
+    }
+
+    pub(super) fn record(chunks: Vec<Vec<u8>>, digest: [u8; 32]) {
+        LOG.with(|log| log.borrow_mut().push((chunks, digest)));
+    }
+
+    /// Take (and clear) the log of `(chunks, digest)` pairs recorded on this thread.
+    pub fn drain() -> Vec<(Vec<Vec<u8>>, [u8; 32])> {
+        LOG.with(|log| std::mem::take(&mut *log.borrow_mut()))
     }
 }
